@@ -110,6 +110,7 @@ Plan parse_plan(const std::string &text) {
             p.lstack = kv.u64("lstack", 0);
             p.argorder = kv.u64("argorder", 0);
             p.longnames = kv.u64("longnames", 0);
+            p.port = (int)kv.u64("port", 0);
             p.stackfill = (int)kv.u64("stackfill", 0xA5);
         } else if (kv.op == "can") {
             CanW w;
@@ -356,7 +357,8 @@ static void setup_nodes(RunState &rs) {
         // option groups; their order on the command line is seeded (any order is a valid invocation)
         std::vector<std::vector<std::string>> tg, lg;
         if (p.tscf) tg.push_back({"-t"});
-        if (p.udp) { tg.push_back({"-u"}); tg.push_back({"--dst-nw-addr", "10.0.0.2:17220"}); lg.push_back({"-u"}); lg.push_back({"-p", "17220"}); }
+        std::string port = std::to_string(p.port ? p.port : 17220);
+        if (p.udp) { tg.push_back({"-u"}); tg.push_back({"--dst-nw-addr", "10.0.0.2:" + port}); lg.push_back({"-u"}); lg.push_back({"-p", port}); }
         else { tg.push_back({"-i", p.longnames ? "eth-backbone-01" : "eth0"}); tg.push_back({"-d", kMacStream}); lg.push_back({"-i", p.longnames ? "eth-backbone-01" : "eth0"}); lg.push_back({"-d", kMacStream}); }
         if (p.fd) { tg.push_back({"--fd"}); lg.push_back({"--fd"}); }
         tg.push_back({"-c", std::to_string(p.count)});
@@ -774,6 +776,16 @@ void exec_plan(const std::string &text, bool verbose) {
         if (rs.pending_cargo.size() >= (size_t)std::max(1, p.count))
             violation("frame-count:unsent", strf("the talker read %zu frames that it never sent (it sends after every %d frames); %llu datagrams sent",
                                                  rs.pending_cargo.size(), p.count, (unsigned long long)w.nodes[rs.talker].sent));
+        // without any loss injected, what the talker sends arrives: a listener that never received a single datagram was never addressed
+        {
+            bool lossy = !p.mut.empty() || !p.stall.empty() || rs.listener_restarts || p.qcap < 64;
+            if (!lossy && rs.recv_total == 0 && w.nodes[rs.talker].sent >= 3)
+                violation("frame-count:nothing-received", strf("the talker sent %llu datagrams, the listener received none although no loss, delay or stall was injected: "
+                                                               "they were not addressed to where the listener listens", (unsigned long long)w.nodes[rs.talker].sent));
+        }
+        if (w.counters.count("ev.can_frame_rejected_by_socket_filter"))
+            violation("frame-count:filtered", strf("%llu data frames of the bus never reached the talker: its CAN socket carries a receive filter (CAN_RAW_FILTER) that does not match them",
+                                                   (unsigned long long)w.counters["ev.can_frame_rejected_by_socket_filter"]));
         if (p.fd && w.counters.count("ev.can_fd_frame_not_accepted"))
             violation("frame-count:not-accepted", strf("%llu FD frames were offered to a talker started with --fd whose CAN socket does not accept FD frames (CAN_RAW_FD_FRAMES is not enabled on it)",
                                                        (unsigned long long)w.counters["ev.can_fd_frame_not_accepted"]));
